@@ -164,3 +164,32 @@ func C02_SaveKeyValueBalanceKeys() {
 	verif.Reach("rejected-balance-key-later", verif.And(!ok, firstPlain, laterBal))
 	verif.ObserveBool("ok", ok)
 }
+
+func init() {
+	reg("C02_TransferSameShard", C02_TransferSameShard)
+	reg("C02_NFTTransferSameShard", C02_NFTTransferSameShard)
+	reg("C02_MultiTransferSameShard", C02_MultiTransferSameShard)
+}
+
+// supplyOpt: a transfer whose two legs run in one call (sender and destination on the executing
+// shard), so that "leaves the supply unchanged" is visible in a single step: what the sender
+// loses is what the destination gains, per (token, nonce), and nothing else is written.
+var supplyOpt = Opt{GasEnough: true, NoRAE: true, Direct: true, Small: true, NoFrozen: true, NoPause: true, Split1: true, NoURIs: true, NoCall: true, FullAmounts: true}
+
+func C02_TransferSameShard() {
+	o := supplyOpt
+	o.Presence = 1
+	sendCheck(scnTransfer(o))
+}
+
+func C02_NFTTransferSameShard() {
+	o := supplyOpt
+	o.SameOnly = true
+	sendCheck(scnNFTTransfer(o))
+}
+
+func C02_MultiTransferSameShard() {
+	o := supplyOpt
+	o.SameOnly, o.MultiK = true, 1
+	sendCheck(scnMultiTransfer(o))
+}
